@@ -125,6 +125,26 @@ theorem ofDfa_congr {c1 c2 : Config} (h : c1.esc = c2.esc) (d : Dfa) : Expr.ofDf
   have hfun : elimStep c1 = elimStep c2 := by funext st n; exact h4 st n
   simp only [Expr.ofDfa, h3, hfun]
 
+/-- same configuration in everything S1–S6 read: all but capturing groups, `-e`, verbose mode, colour and the anchors -/
+def SameClusterInputs (c1 c2 : Config) : Prop :=
+  c1.minRep = c2.minRep ∧ c1.minLen = c2.minLen ∧ c1.digit = c2.digit ∧ c1.nonDigit = c2.nonDigit ∧
+  c1.space = c2.space ∧ c1.nonSpace = c2.nonSpace ∧ c1.word = c2.word ∧ c1.nonWord = c2.nonWord ∧
+  c1.rep = c2.rep ∧ c1.ci = c2.ci
+
+theorem SameStageInputs.cluster {c1 c2 : Config} (h : SameStageInputs c1 c2) : SameClusterInputs c1 c2 := by
+  obtain ⟨a1, a2, a3, a4, a5, a6, a7, a8, a9, a10, _⟩ := h
+  exact ⟨a1, a2, a3, a4, a5, a6, a7, a8, a9, a10⟩
+
+theorem convChar_congr' {c1 c2 : Config} (h : SameClusterInputs c1 c2) (c : Nat) : convChar c1 c = convChar c2 c := by
+  obtain ⟨_, _, hd, hnd, hs, hns, hw, hnw, _⟩ := h
+  have hf : flagOf c1 = flagOf c2 := by
+    funext f; cases f <;> simp [flagOf, hd, hnd, hs, hns, hw, hnw]
+  simp only [convChar]
+  generalize Gen.convRules = rules
+  induction rules with
+  | nil => rfl
+  | cons r rs ih => simp only [convCharRules, hf, ih]
+
 theorem convChar_congr {c1 c2 : Config} (h : SameStageInputs c1 c2) (c : Nat) : convChar c1 c = convChar c2 c := by
   obtain ⟨_, _, hd, hnd, hs, hns, hw, hnw, _⟩ := h
   have hf : flagOf c1 = flagOf c2 := by
@@ -182,10 +202,10 @@ theorem graphemeClusters_uncond (c : Config) (env : Env) (ws : List Str) :
       simp [List.map_map, Function.comp, convertClasses_id c hall]
     simp only [hf, Bool.false_eq_true, ite_false, this]
 
-theorem graphemeClusters_congr {c1 c2 : Config} (h : SameStageInputs c1 c2) (env : Env) (ws : List Str) :
+theorem graphemeClusters_congr' {c1 c2 : Config} (h : SameClusterInputs c1 c2) (env : Env) (ws : List Str) :
     graphemeClusters c1 env ws = graphemeClusters c2 env ws := by
-  have hconv : convChar c1 = convChar c2 := funext (convChar_congr h)
-  obtain ⟨hmr, hml, hd, hnd, hs, hns, hw, hnw, hrep, hci, _⟩ := h
+  have hconv : convChar c1 = convChar c2 := funext (convChar_congr' h)
+  obtain ⟨hmr, hml, hd, hnd, hs, hns, hw, hnw, hrep, hci⟩ := h
   have hcc : convertClasses c1 = convertClasses c2 := by
     funext cl; simp only [convertClasses, hconv]
   have hcr : createRanges c1 = createRanges c2 := by
@@ -204,6 +224,9 @@ theorem graphemeClusters_congr {c1 c2 : Config} (h : SameStageInputs c1 c2) (env
     funext cl; simp only [convertRepetitions, haux]
   rw [graphemeClusters_uncond, graphemeClusters_uncond]
   simp only [hcc, hrep, hrp]
+
+theorem graphemeClusters_congr {c1 c2 : Config} (h : SameStageInputs c1 c2) (env : Env) (ws : List Str) :
+    graphemeClusters c1 env ws = graphemeClusters c2 env ws := graphemeClusters_congr' h.cluster env ws
 
 /-- **the expression obtained from the minimised automaton does not depend on the anchor settings** -/
 theorem firstAst_independent {c1 c2 : Config} (h : SameStageInputs c1 c2) (env : Env) (ws : List Str)
